@@ -29,6 +29,9 @@ class NotKnown:
         self.resolvedObject = newObject
         for mut, key in self.dependants:
             mut[key] = newObject
+            if isinstance(newObject, NotKnown):
+                # Resolved to another placeholder: keep waiting for that one.
+                newObject.addDependant(mut, key)
 
     def __hash__(self):
         assert 0, "I am not to be used as a dictionary key."
